@@ -359,14 +359,14 @@ def main(mod, argv):
         env.setdefault(k, '1')
     procs = []
     for k in range(nshards):
-        partial = os.path.join(outdir, f'partial-{args.tier}-{k}.json')
+        partial = os.path.join(outdir, f'partial-{args.tier}-{os.getpid()}-{k}.json')   # unique per invocation: concurrent runs of one property must not mix
         if os.path.exists(partial):
             os.unlink(partial)
         cmd = [sys.executable, os.path.join(ROOT, 'check'), prop, '--tier', args.tier, '--shard', str(k),
                '--nshards', str(nshards), '--partial', partial]
         if args.sub:
             cmd += ['--sub', args.sub]
-        log = open(os.path.join(outdir, f'shard-{args.tier}-{k}.log'), 'w')
+        log = open(os.path.join(outdir, f'shard-{args.tier}-{os.getpid()}-{k}.log'), 'w')
         procs.append((k, partial, subprocess.Popen(cmd, env=env, stdout=log, stderr=subprocess.STDOUT, cwd=ROOT), log))
     parts = []
     herr = []
@@ -379,6 +379,10 @@ def main(mod, argv):
         else:
             tail = open(log.name).read()[-2000:]
             herr.append(dict(sub='*', where=f'shard {k} exited rc={rc} without result', tb=tail))
+        try:
+            if rc == 0: os.unlink(log.name)
+        except OSError:
+            pass
     merged = ShardState()
     for p in parts:
         merged.evaluations += p['evaluations']
